@@ -97,6 +97,40 @@ def run(rep, tier, seed):
                 raise MachineryError("vacuous reentrancy program %r: the callback never ran" % (prog,))
         rep.case(len(progs))
         rep.extra["reentrancy_programs"] = len(progs)
+        # (2c) replacing the default of a trait definition while a finaliser of the old default reads it: CTraitUpdate.tla
+        from . import ctrait_update
+        ures = tlc.run_tlc("CTraitUpdate", "CTraitUpdate.cfg", timeout=300, workers=1, heap="1g")
+        rep.add_tlc("CTraitUpdate", ures)
+        uresf = tlc.run_tlc("CTraitUpdate", "CTraitUpdate_unsafe.cfg", timeout=300, workers=1, heap="1g")
+        rep.extra["kind_written_after_release_is_unsafe_by_TLC"] = (uresf.violated == "Safe")
+        uprogs = ctrait_update.programs()
+        utrace = os.path.join(work, "update.ndjson")
+        nu = 0
+        with open(utrace, "w") as f:
+            for prog in uprogs:
+                status, r = run_isolated(ctrait_update.run_program, *prog)
+                if status == "crash":
+                    rep.violation("C18:crash:default-replaced:%s:%s" % prog, "the interpreter crashed (%s) when the finaliser of the old "
+                                  "%s default read the trait while it was being given a %s default" % (r, prog[0], prog[1]),
+                                  {"program": prog, "how": r})
+                    continue
+                if status != "ok":
+                    raise MachineryError("default-replacement program %r: %s" % (prog, r))
+                f.write(json.dumps(r) + "\n")
+                nu += 1
+        if nu:
+            jres = tlc.run_tlc("Trace_CTraitUpdate", "Trace_CTraitUpdate.cfg", workers=1, env={"TRACE_FILE": utrace}, timeout=300, heap="1g")
+            rep.add_tlc("Trace_CTraitUpdate", jres)
+            urej = tlaval.find_printed(jres.stdout, "REJECT")
+            if jres.distinct != nu + 1 or jres.stdout.count('"REJECT"') != len(urej):
+                raise MachineryError("default-replacement judge: %d states for %d records" % (jres.distinct, nu))
+            urecs = [json.loads(l) for l in open(utrace)]
+            for r in urej:
+                rec = urecs[r[0] - 1]
+                rep.violation("C18:default-replaced:%s:%s:%s" % (rec["oldk"], rec["newk"], "+".join(sorted(str(c) for c in r[1]))),
+                              "default-replacement program rejected: %r" % rec, rec)
+        rep.case(len(uprogs))
+        rep.extra["default_replacement_programs"] = len(uprogs)
         # (3) sanitised replay
         so = build.build_ctraits(asan=True)
         env = dict(os.environ)
